@@ -930,11 +930,20 @@ where
                 D: serde::de::Deserializer<'de>,
             {
                 // Anchor context is established by de.rs when the special name is used.
-                let id = anchor_store::current_rc_anchor().ok_or_else(|| {
-                    D::Error::custom(
-                        "weak Rc anchor must refer to an existing strong anchor via alias",
-                    )
-                })?;
+                let Some(id) = anchor_store::current_rc_anchor() else {
+                    // Not a reference to an anchor: only `null` is valid here, it is what a
+                    // dangling weak serializes to.
+                    let node =
+                        <Option<serde::de::IgnoredAny> as serde::de::Deserialize>::deserialize(
+                            deserializer,
+                        )?;
+                    return match node {
+                        None => Ok(RcWeakAnchor(RcWeak::new())),
+                        Some(_) => Err(D::Error::custom(
+                            "weak Rc anchor must refer to an existing strong anchor via alias",
+                        )),
+                    };
+                };
                 // Consume and ignore the inner node to keep the stream in sync (alias replay injects the full target node).
                 let _ =
                     <serde::de::IgnoredAny as serde::de::Deserialize>::deserialize(deserializer)?;
@@ -977,11 +986,20 @@ where
             where
                 D: serde::de::Deserializer<'de>,
             {
-                let id = anchor_store::current_arc_anchor().ok_or_else(|| {
-                    D::Error::custom(
-                        "weak Arc anchor must refer to an existing strong anchor via alias",
-                    )
-                })?;
+                let Some(id) = anchor_store::current_arc_anchor() else {
+                    // Not a reference to an anchor: only `null` is valid here, it is what a
+                    // dangling weak serializes to.
+                    let node =
+                        <Option<serde::de::IgnoredAny> as serde::de::Deserialize>::deserialize(
+                            deserializer,
+                        )?;
+                    return match node {
+                        None => Ok(ArcWeakAnchor(ArcWeak::new())),
+                        Some(_) => Err(D::Error::custom(
+                            "weak Arc anchor must refer to an existing strong anchor via alias",
+                        )),
+                    };
+                };
                 // Consume and ignore the inner node (alias replay injects the target node events).
                 let _ =
                     <serde::de::IgnoredAny as serde::de::Deserialize>::deserialize(deserializer)?;
